@@ -33,6 +33,7 @@ GENERATORS = [
     ('gen_polyloops', 'PolyLoops.lean', _unsup),
     ('gen_dispatch', 'Dispatch.lean', _unsup),
     ('gen_hdr', 'Hdr.lean', _unsup),
+    ('gen_segstate', 'SegState.lean', lambda r: {'unsupported': r['unsupported'], 'mutations': r['mutations'], 'acct': r['acct']}),
     ('tables_xml', 'XmlTables.lean', lambda r: None),
 ]
 
